@@ -12,7 +12,10 @@ Three parties are compared on the same cases:
     encodings in NON-shortest legal forms must `brine.load` (and decode in the model) to the same value.
 (b) packets: the byte stream of the real `Channel.send` = the published frame (zlib's output is taken from the
     real run; length field, flag and trailer are compared); reference frames compressed at other zlib levels,
-    compressed below the threshold or uncompressed above it are accepted by the real `Channel.recv`.
+    compressed below the threshold or uncompressed above it are accepted by the real `Channel.recv`; large highly
+    compressible payloads (blank / repeated 64-byte record, 1 MiB+1 .. 8 MiB, zlib levels 1/6/9, ratios up to ~1000:1,
+    plus 2 MiB incompressible) as raw packets and as ping arguments echoed by a real Connection (real code vs
+    refcodec only, not through the Lean driver).
 (c) conversations: a real Connection talks to refcodec's peer and exercises EVERY published handler 1..20 (ping,
     close, getroot, getattr, delattr, setattr, call, callattr, repr, str, cmp, hash, dir, pickle (refused), del,
     inspect, buffiter, old slicing, leaving a `with proxy:` block (CTXEXIT), isinstance across the connection), plus
@@ -339,6 +342,103 @@ def check_recv_real(data, level, force, rest=b"\x01\x02"):
         return "Channel.recv returned other data for a conforming packet (zlib level %s, force=%s, %d bytes)" % (level, force, len(data))
     if left != rest:
         return "Channel.recv consumed %d bytes beyond the packet" % (len(rest) - len(left))
+    return None
+
+
+# -- large, highly compressible packets (boundary corpus, run every time; real code vs refcodec only: multi-MiB payloads
+#    are not pushed through the Lean driver).  The format allows any zlib level; levels >= 4 reach ~1000:1 on repetitive
+#    data, so a conforming peer's packet may inflate to a thousand times its size.
+MIB = 1 << 20
+BIG_KINDS = ("blank", "record64", "random")
+BIG_RECV = [(kind, n, level) for kind in ("blank", "record64") for n in (MIB + 1, 2 * MIB, 4 * MIB, 8 * MIB)
+            for level in (1, 6, 9)] + [("random", 2 * MIB, 6)]
+BIG_PING = [("server", "blank", 8 * MIB, 9), ("server", "record64", 4 * MIB, 6), ("server", "record64", MIB + 1, 1),
+            ("server", "blank", 2 * MIB, 6), ("server", "random", 2 * MIB, 6),
+            ("client", "record64", 8 * MIB, 9), ("client", "blank", MIB + 1, 6)]
+_big_cache = {}
+
+
+def big_payload(kind, n):
+    key = (kind, n)
+    if key not in _big_cache:
+        if kind == "blank":
+            d = b"\x00" * n
+        elif kind == "record64":
+            rec = bytes((i * 37 + 11) % 251 for i in range(64))
+            d = (rec * (n // 64 + 1))[:n]
+        else:
+            d = Rng(n).bytes(n)
+        _big_cache[key] = d
+    return _big_cache[key]
+
+
+def check_big_recv(kind, n, level):
+    """None or a description; also returns the compression ratio of the reference packet"""
+    data = big_payload(kind, n)
+    f = refcodec.frame(data, True, level)
+    ratio = len(data) / max(1, len(f) - 6)
+    st, got, left = real_recv(f + b"\x07")
+    if st != "ok":
+        return ("Channel.recv raised %s on a conforming packet: %d bytes of %s data compressed at zlib level %d to %d bytes (%.0f:1)"
+                % (st[4:], n, kind, level, len(f) - 6, ratio)), ratio
+    if got != data or left != b"\x07":
+        return "Channel.recv returned other data for a conforming packet (%d bytes of %s data, zlib level %d)" % (n, kind, level), ratio
+    return None, ratio
+
+
+def check_big_ping(direction, kind, n, level):
+    """a ping whose argument is a large compressible byte string, echoed by a real Connection (direction=server:
+    the reference peer asks at zlib level `level`; direction=client: the real side asks, the peer answers at that level)"""
+    rpyc, _b, channel, consts, _p, _s = rp()
+    data = big_payload(kind, n)
+    peer = refcodec.RefPeer(compress=True, level=level)
+    st = make_loop_stream()
+    consumed = [0]
+    if direction == "server":
+        conn = make_service()._connect(channel.Channel(st, True), dict(SERVER_CONFIG))
+        seq, pkt = peer.compose("PING", refcodec.box_value((data,)))
+        st.inbox += pkt
+        try:
+            while st.inbox and not conn.closed:
+                conn.serve(0)
+        except Exception as ex:  # noqa
+            return "serving a ping of %d bytes of %s data sent at zlib level %d raised %s%r; the request is never answered" % (
+                n, kind, level, type(ex).__name__, ex.args[:1])
+        finally:
+            back = bytes(st.out)
+        peer.feed(back)
+        msg = peer.pending.get(seq)
+        try:
+            conn.close()
+        except Exception:  # noqa
+            pass
+        if peer.problems:
+            return "; ".join(peer.problems)[:300]
+        if msg is None:
+            return "a ping of %d bytes of %s data sent at zlib level %d got no response" % (n, kind, level)
+        if msg[0] != "reply" or msg[2] != (refcodec.LABEL_VALUE, data):
+            return "a ping of %d bytes of %s data sent at zlib level %d was answered with %s" % (n, kind, level, msg[0])
+        return None
+
+    def pump():
+        out = bytes(st.out[consumed[0]:])
+        consumed[0] = len(st.out)
+        if out:
+            st.inbox += peer.feed(out)
+    st.pump = pump
+    conn = rpyc.VoidService()._connect(channel.Channel(st, True), {})
+    try:
+        got = conn.sync_request(consts.HANDLE_PING, data)
+    except BaseException as ex:  # noqa
+        return "a ping of %d bytes of %s data, echoed by a conforming peer at zlib level %d, raised %s%r at the real client" % (
+            n, kind, level, type(ex).__name__, ex.args[:1])
+    finally:
+        try:
+            conn.close()
+        except Exception:  # noqa
+            pass
+    if got != data:
+        return "a ping of %d bytes echoed by a conforming peer at zlib level %d returned other data" % (n, level)
     return None
 
 
@@ -877,7 +977,9 @@ def correspondence(ctx):
               "vs Lean specEnc vs refcodec, then refcodec encodings in longest/random legal forms loaded by the real decoder "
               "and by the model decoder; (b) Channel.send on payloads of 0..70000 bytes around 3000 and 64000, compress "
               "on/off, compressible and incompressible, vs the Lean frame; reference packets at zlib levels 0/1/6/9, "
-              "compressed below / uncompressed above the threshold, through the real Channel.recv and the Lean recv; "
+              "compressed below / uncompressed above the threshold, through the real Channel.recv and the Lean recv; fixed corpus "
+              "of large compressible reference packets (blank / 64-byte record, 1 MiB+1..8 MiB, levels 1/6/9, and 2 MiB random) "
+              "through the real Channel.recv and as pings echoed by a real Connection (vs refcodec only); "
               "(c) seeded conversations real Connection <-> reference peer in both roles (every 10th runs the full script: all 20 "
               "handler numbers in each direction, counted in handlers_exercised_per_direction), every real packet reference-"
               "decoded, layout-checked, re-encoded and rebuilt by Lean Msg.wire. Non-trivial: anything but the empty "
@@ -995,6 +1097,27 @@ def correspondence(ctx):
                     "%d bytes level=%d force=%s" % (len(data), level, force), want,
                     "recv:%d:%d:%s" % (size_class(len(data)), level, force))
 
+    # (b') large highly compressible packets: real code vs refcodec only
+    ratios = {}
+    for kind, n, level in BIG_RECV:
+        c.evaluations += 1
+        msg, ratio = check_big_recv(kind, n, level)
+        ratios["%s:%dKiB:level%d" % (kind, n // 1024, level)] = int(ratio)
+        c.count("recv-large:%s:level%d:%s" % (kind, level, "ok" if not msg else "PROBLEM"))
+        c.signatures.add("recv-large:%s:%d:%d" % (kind, n, level))
+        if msg:
+            disagree("recv-of-large-reference-packet", "%s %d bytes level=%d" % (kind, n, level), msg, "the data")
+    for direction, kind, n, level in BIG_PING:
+        c.evaluations += 1
+        msg = check_big_ping(direction, kind, n, level)
+        c.count("ping-large:%s:%s:level%d:%s" % (direction, kind, level, "ok" if not msg else "PROBLEM"))
+        c.signatures.add("ping-large:%s:%s:%d:%d" % (direction, kind, n, level))
+        if msg:
+            disagree("ping-large", "%s %s %d bytes level=%d" % (direction, kind, n, level), msg, "the data is echoed")
+    c.extra["large_packet_compression_ratios"] = ratios
+    if len(c.samples) < 12:
+        c.samples.append(dict(part="recv-large", case="blank %d bytes at zlib level 9" % (8 * MIB),
+                              ratio=ratios.get("blank:%dKiB:level9" % (8 * MIB // 1024))))
     ctx.log("packets done: %d op lines so far" % len(lines))
     # (c) conversations
     n_conv = ctx.budget(100, 1000)
@@ -1112,6 +1235,15 @@ def oracle_search(ctx, corr, broken):
                     msg = check_recv_real(data, level, force)
                     if msg and "frame:recv" not in known:
                         return dict(kind="input", part="recv", size=n, level=level, force=force), msg, "frame:recv"
+        for kind, n, level in sorted(BIG_RECV, key=lambda t: (t[1], t[2])):
+            msg, _ratio = check_big_recv(kind, n, level)
+            if msg and "frame:recv-large" not in known:
+                return dict(kind="input", part="recv-large", payload=kind, size=n, level=level), msg, "frame:recv-large"
+        for direction, kind, n, level in BIG_PING:
+            msg = check_big_ping(direction, kind, n, level)
+            if msg and "frame:ping-large" not in known:
+                return (dict(kind="input", part="ping-large", direction=direction, payload=kind, size=n, level=level), msg,
+                        "frame:ping-large")
         return None
 
     def conversation_failures(count):
@@ -1143,7 +1275,7 @@ def oracle_search(ctx, corr, broken):
             f = value_failure(v)
             if f:
                 return f
-    if any(d.get("op", "").startswith(("send", "recv", "model:frame", "model:recv")) for d in corr.disagreements):
+    if any(d.get("op", "").startswith(("send", "recv", "ping-large", "model:frame", "model:recv")) for d in corr.disagreements):
         f = frame_failures()
         if f:
             return f
@@ -1200,6 +1332,15 @@ def replay(case):
     elif part == "recv":
         data = bytes((i * 31 + case["size"]) % 7 for i in range(case["size"]))
         out["oracle"] = check_recv_real(data, case["level"], case["force"]) or "holds"
+    elif part == "recv-large":
+        msg, ratio = check_big_recv(case["payload"], case["size"], case["level"])
+        out["implementation"] = msg or "Channel.recv returned the data"
+        out["reference"] = "refcodec.frame(data, level=%d): %.0f:1; refcodec.unframe returns the data" % (case["level"], ratio)
+        out["oracle"] = msg or "holds"
+    elif part == "ping-large":
+        msg = check_big_ping(case["direction"], case["payload"], case["size"], case["level"])
+        out["implementation"] = msg or "the ping was echoed"
+        out["oracle"] = msg or "holds"
     elif part == "conversation":
         res = run_conversation(case["direction"], case["seed"], case["index"])
         out["implementation"] = dict(ops=res["ops"], problems=res["problems"],
